@@ -533,6 +533,24 @@ pub fn rec_response(args: &Args) {
             }
         }
     }
+    // long diagnostics: the error's text is the reply's payload byte for byte whatever its length - around the
+    // default datagram size for every token length, and far beyond it (multi-byte characters included)
+    for tkl in 0..=8usize {
+        let mut lens: Vec<usize> = (1255..=1290).collect();
+        lens.extend([1023, 1024, 1152, 2000, 4096]);
+        if tkl % 4 == 0 {
+            lens.push(70_000);
+        }
+        for (i, len) in lens.into_iter().enumerate() {
+            let mut p = Packet::new();
+            p.header.set_type(num_type((i % 2) as u64));
+            p.header.message_id = 0x1234;
+            p.set_token(r.bytes(tkl));
+            let msg: String = if i % 3 == 2 { "é".repeat(len / 2) + &"z".repeat(len % 2) } else { "d".repeat(len) };
+            let long = vec![json!({"code": {"some": true, "v": if i % 2 == 0 { 0x80u8 } else { 0xA0 }}, "msg": jbytes(msg.as_bytes())})];
+            ev_response(&mut out, &p, &mut r, &long);
+        }
+    }
     let n = out.finish();
     println!("{}", json!({"events": n, "swept_native": swept, "forwarded": forwarded}));
 }
